@@ -433,6 +433,15 @@ def judge(events, npart):
                     f"participant {pid} removed the membership directory "
                     f"while {sorted(others)} was running or installing")
         elif op == "attach":
+            others = (set(running) | installing) - {pid}
+            if attached and others:
+                # a dispatcher is in place and in use: whoever attaches
+                # another one (with a program table of its own) takes the
+                # running groups' programs away from their frames
+                return "dispatcher-replaced-while-others-active", (
+                    f"participant {pid} attached a dispatcher while one was "
+                    f"attached and {sorted(others)} was running or "
+                    f"installing")
             attached = True
         elif op == "pin":
             pinned = True
